@@ -33,7 +33,9 @@ HOSTILE = ['=1+2', '=SUM(A1)', '=a"b', 'say "hi"', "it's", 'a!b', '#EMPTY',
            '#empty', '#N/A', '#REF!', "'quoted'", '=', '=""', '"', 'TRUE',
            '12', ' 4 ', '1E+3', '', 'x\ny', '{1,2}', "='S'!A1",
            # formula / error look-alikes behind white space or a sheet prefix
-           ' =B1+1', '  #N/A', 'DATA!#REF!', ' {=B1*2}', '\t=1+1', ' #EMPTY']
+           ' =B1+1', '  #N/A', 'DATA!#REF!', ' {=B1*2}', '\t=1+1', ' #EMPTY',
+           # formula look-alikes over several lines
+           '=SUM(A2:A3)\n+ 1', '=A1\n', '="a\nb"', '=\n1']
 ERRORS = ['#NULL!', '#DIV/0!', '#VALUE!', '#REF!', '#NAME?', '#NUM!', '#N/A']
 
 
@@ -85,6 +87,30 @@ def roundtrip(model, ctx, case, tag):
                 wbrun._cls(v2 if v2[0] != 'arr' else v2[1][0])), dict(
                 w, node=k, exported=_short(d1.get(k)), observed=xl.show(v2),
                 accepted=[xl.show(v)]))
+    # finishing the imported model (the usual next call) changes nothing
+    try:
+        m3 = formulas.ExcelModel().from_dict(json.loads(js)).finish()
+        sol3 = _sol_values(m3.calculate())
+    except Exception as ex:
+        ctx.violation('import+finish-raised:%s:%s' % (tag, type(ex).__name__), dict(
+            w, observed='%s: %s' % (type(ex).__name__, str(ex)[:200]),
+            accepted=['a model']))
+        sol3 = None
+    if sol3 is not None:
+        ctx.count('monitor.roundtrip-finished')
+        for k, v in sol1.items():
+            v3 = sol3.get(k, ('missing',))
+            if v == ('arr', (xl.BLANK,)) and v3 == ('missing',):
+                continue
+            if not xl.same(v, v3, rel=1e-15) and xl.same(v, sol2.get(k, ('missing',)),
+                                                         rel=1e-15):
+                cls = _value_class(d1.get(k), k)
+                ctx.violation('value-changed-by-finish:%s:%s:%s->%s' % (
+                    tag, cls, wbrun._cls(v if v[0] != 'arr' else v[1][0]),
+                    wbrun._cls(v3 if v3[0] != 'arr' else v3[1][0])), dict(
+                    w, node=k, exported=_short(d1.get(k)), observed=xl.show(v3),
+                    accepted=[xl.show(v)]))
+                break
     try:
         d2 = m2.to_dict()
     except Exception as ex:
